@@ -55,8 +55,10 @@ type blockObs struct {
 	Ws  []kvEnt `json:"ws"`
 }
 type row struct {
-	Blk   [][]mStep `json:"blk"`
-	Prior []kvEnt   `json:"prior"`
+	Blk   [][]mStep       `json:"blk"`
+	Prior []kvEnt         `json:"prior"`
+	Obs   blockObs        `json:"obs"`
+	Viol  [][]interface{} `json:"viol"`
 }
 
 func idStr(tag string, id []int) string {
@@ -395,6 +397,9 @@ func (pl *probeLedger) exec(blk [][]mStep, tag string, sign bool) (out execOut) 
 
 func workers() int {
 	w := runtime.GOMAXPROCS(0)
+	if v, err := strconv.Atoi(os.Getenv("VERIF_WORKERS")); err == nil && v > 0 {
+		w = v
+	}
 	if w > 12 {
 		w = 12
 	}
@@ -412,17 +417,129 @@ func outDir(name string) string {
 	return filepath.Join(base, name)
 }
 
-func replay() {
+// readRows accepts plain NDJSON rows or raw TLC output (lines <<"ROW", "...">> with TLA+ string escapes).
+func readRows() []row {
+	var rows []row
+	const pre = `<<"ROW", "`
+	for _, ln := range vio.ReadLines() {
+		b := []byte(ln)
+		if bytes.HasPrefix(b, []byte(pre)) && bytes.HasSuffix(b, []byte(`">>`)) {
+			b = b[len(pre) : len(b)-3]
+			u := make([]byte, 0, len(b))
+			for i := 0; i < len(b); i++ {
+				if b[i] == '\\' && i+1 < len(b) {
+					i++
+					switch b[i] {
+					case 'n':
+						u = append(u, '\n')
+					case 't':
+						u = append(u, '\t')
+					default:
+						u = append(u, b[i])
+					}
+					continue
+				}
+				u = append(u, b[i])
+			}
+			b = u
+		} else if len(b) == 0 || b[0] != '{' {
+			continue
+		}
+		var r row
+		if err := json.Unmarshal(b, &r); err != nil {
+			vio.Fatal("bad row %d: %v", len(rows), err)
+		}
+		rows = append(rows, r)
+	}
+	return rows
+}
+
+func normObs(o blockObs) blockObs {
+	sort.Slice(o.Ws, func(i, j int) bool {
+		if o.Ws[i].C != o.Ws[j].C {
+			return o.Ws[i].C < o.Ws[j].C
+		}
+		return o.Ws[i].K < o.Ws[j].K
+	})
+	if o.Txs == nil {
+		o.Txs = []txObs{}
+	}
+	if o.Xh == nil {
+		o.Xh = [][]int{}
+	}
+	if o.Ws == nil {
+		o.Ws = []kvEnt{}
+	}
+	return o
+}
+
+func scriptFails(s []mStep) bool {
+	for _, st := range s {
+		if st.Op == "fail" || (st.Op == "call" && !st.Catch && scriptFails(st.Sub)) {
+			return true
+		}
+	}
+	return false
+}
+func hasCall(s []mStep) bool {
+	for _, st := range s {
+		if st.Op == "call" {
+			return true
+		}
+	}
+	return false
+}
+func hasCaught(s []mStep) bool {
+	for _, st := range s {
+		if st.Op == "call" && ((st.Catch && scriptFails(st.Sub)) || hasCaught(st.Sub)) {
+			return true
+		}
+	}
+	return false
+}
+
+// context names the shape of the transaction a violated clause is attributed to (tx = 0: the whole block).
+func context(blk [][]mStep, tx int) string {
+	pick := blk
+	if tx >= 1 && tx <= len(blk) {
+		pick = blk[tx-1 : tx]
+	}
+	c := "flat"
+	for _, s := range pick {
+		if hasCaught(s) {
+			return "caught-nested-failure"
+		}
+		if hasCall(s) {
+			c = "nested"
+		}
+	}
+	return c
+}
+
+func violKeys(blk [][]mStep, viol [][]interface{}) []string {
+	seen := map[string]bool{}
+	var ks []string
+	for _, v := range viol {
+		if len(v) != 2 {
+			continue
+		}
+		cl, _ := v[0].(string)
+		tx, _ := v[1].(float64)
+		k := cl + ":" + context(blk, int(tx))
+		if !seen[k] {
+			seen[k] = true
+			ks = append(ks, k)
+		}
+	}
+	sort.Strings(ks)
+	return ks
+}
+
+func replay(nSample int) {
 	quietPoly()
 	ledgerkit.RegisterProbe()
 	installReadLog()
-	lines := vio.ReadLines()
-	rows := make([]row, len(lines))
-	for i, ln := range lines {
-		if err := json.Unmarshal(ln, &rows[i]); err != nil {
-			vio.Fatal("bad row %d: %v", i, err)
-		}
-	}
+	rows := readRows()
 	accts := ledgerkit.LoadOrCreateAccounts(outDir("txexec-keys"), 1)
 	w := workers()
 	type wstate struct{ byPrior map[string]*probeLedger }
@@ -430,9 +547,21 @@ func replay() {
 	for k := range ws {
 		ws[k] = &wstate{byPrior: map[string]*probeLedger{}}
 	}
+	sample := map[int]bool{}
+	rng := vio.NewRNG(vio.Seed() + 77)
+	for len(sample) < nSample && len(sample) < len(rows) {
+		sample[rng.Intn(len(rows))] = true
+	}
+	type class struct {
+		Count   int         `json:"count"`
+		Example interface{} `json:"example"`
+	}
+	var mu sync.Mutex
+	distinct := map[[32]byte]bool{}
+	nontrivial := map[[32]byte]bool{}
+	classes := map[string]*class{}
+	matched, mismatched := 0, 0
 	var wg sync.WaitGroup
-	var distinctMu sync.Mutex
-	distinct := map[string]bool{}
 	for k := 0; k < w; k++ {
 		wg.Add(1)
 		go func(k int) {
@@ -447,11 +576,46 @@ func replay() {
 					ws[k].byPrior[sig] = pl
 				}
 				o := pl.exec(r.Blk, "", false)
-				js, _ := json.Marshal(o.Obs)
-				distinctMu.Lock()
-				distinct[string(js)] = true
-				distinctMu.Unlock()
-				vio.Emit(map[string]interface{}{"i": i, "obs": o.Obs, "digest": o.Digest, "panic": o.Panic, "err": o.Err, "foreign": o.foreign})
+				real := normObs(o.Obs)
+				pred := normObs(r.Obs)
+				js, _ := json.Marshal(real)
+				jp, _ := json.Marshal(pred)
+				eq := bytes.Equal(js, jp) && o.Panic == "" && o.Err == "" && !o.foreign
+				bj, _ := json.Marshal(r.Blk)
+				full := map[string]interface{}{"i": i, "blk": r.Blk, "prior": r.Prior, "pred": pred, "obs": real, "viol": r.Viol,
+					"digest": o.Digest, "panic": o.Panic, "err": o.Err, "foreign": o.foreign}
+				nt := false
+				for _, s := range r.Blk {
+					if scriptFails(s) || hasCall(s) {
+						nt = true
+					}
+				}
+				mu.Lock()
+				distinct[sha256of(js)] = true
+				if nt {
+					nontrivial[sha256of(append(bj, js...))] = true
+				}
+				if eq {
+					matched++
+					for _, key := range violKeys(r.Blk, r.Viol) {
+						c := classes[key]
+						if c == nil {
+							c = &class{Example: full}
+							classes[key] = c
+						}
+						c.Count++
+					}
+				} else {
+					mismatched++
+				}
+				mu.Unlock()
+				if !eq {
+					full["mismatch"] = true
+					vio.Emit(full)
+				} else if sample[i] {
+					full["sample"] = true
+					vio.Emit(full)
+				}
 			}
 		}(k)
 	}
@@ -461,7 +625,11 @@ func replay() {
 			pl.lg.L.Close()
 		}
 	}
-	vio.Emit(map[string]interface{}{"summary": true, "rows": len(rows), "distinct_obs": len(distinct), "workers": w})
+	for key, c := range classes {
+		vio.Emit(map[string]interface{}{"class": key, "count": c.Count, "example": c.Example})
+	}
+	vio.Emit(map[string]interface{}{"summary": true, "rows": len(rows), "matched": matched, "mismatched": mismatched,
+		"distinct_obs": len(distinct), "distinct_nontrivial": len(nontrivial), "workers": w})
 }
 
 // ---- chains: execute + submit, observe the persisted state and events --------------------------------------------
@@ -473,13 +641,7 @@ func chain(n, l int) {
 	quietPoly()
 	ledgerkit.RegisterProbe()
 	installReadLog()
-	lines := vio.ReadLines()
-	rows := make([]row, len(lines))
-	for i, ln := range lines {
-		if err := json.Unmarshal(ln, &rows[i]); err != nil {
-			vio.Fatal("bad row %d: %v", i, err)
-		}
-	}
+	rows := readRows()
 	if len(rows) == 0 {
 		vio.Fatal("no rows")
 	}
